@@ -383,8 +383,8 @@ func plan(cfgIdx int, img *image, rng *rand.Rand, budget int) []*job {
 const maxGenVLen = 1 << 22
 const hugeVLen = 1 << 30
 
-// clampVLen keeps the value lengths a job can make ReadValue/ExportTx see below 4 MiB: the store
-// allocates vLen bytes before validating anything (probed separately by the vlen-huge job), and
+// clampVLen keeps the value lengths a job can make ReadValue/ExportTx see below 4 MiB: before 85f50b0 the store
+// allocated vLen bytes before validating anything (still probed by the vlen-huge job), and
 // thousands of multi-GiB allocations would only slow the run down. ReadValue is reached only when
 // ReadTx succeeded, i.e. when the layout is the committed one, so the committed vLen positions are
 // the ones that matter.
